@@ -322,7 +322,6 @@ static int check_stats_request(struct jls_rd_s *rd, const model_t *m, int sig, c
 int verify_stats_signal(struct jls_rd_s *rd, const model_t *m, int sig, const verify_opts_t *o, int64_t length) {
     const msig_t *s = &m->sig[sig];
     const dtype_t *t = s->dt;
-    if (t->bits == 24) { v_count("C02", "signals_skipped_24bit_not_summarisable", 1); return 0; }
     struct jls_signal_def_s def;
     if (jls_rd_signal(rd, (uint16_t) sig, &def)) return 0;
     rng_t *r = o->rng;
@@ -975,7 +974,7 @@ int decode_and_compare(const char *path, const model_t *m, const char *prop, con
     char key[200], wj[300];
     if (jd_load(&d, path)) { v_violation(prop, "decoder|cannot-load", NULL, "cannot load %s", path); return 1; }
     jd_decode(&d);
-    for (int sg = 1; sg < 256; ++sg) if (d.sig[sg].present && d.sig[sg].signal_type == 0 && d.sig[sg].bits != 24) jd_check_summaries(&d, &d.sig[sg]);
+    for (int sg = 1; sg < 256; ++sg) if (d.sig[sg].present && d.sig[sg].signal_type == 0) jd_check_summaries(&d, &d.sig[sg]);
     int bad = 0;
     /* report each distinct rule once per file */
     for (int i = 0; i < d.nerr; ++i) {
